@@ -125,8 +125,12 @@ def run_obligation(ctx, ob, cfg):
 
     covers_seen = {}
     try:
+        budget_s = cfg.get('ob_time_s', 900 if cfg.get('tier') == 'quick' else 10800)
         for p, outcome, payload in ex.run(body, max_paths=getattr(ob, 'max_paths', 5000)):
             res.paths += 1
+            if time.time() - t0 > budget_s:
+                res.inconclusive.append('time budget of %d s exceeded after %d paths' % (budget_s, res.paths))
+                break
             if outcome == 'infeasible':
                 res.pruned += 1
                 continue
